@@ -37,6 +37,7 @@ import GeoProofs.Lemmas.RELMTotal5
 import GeoProofs.Lemmas.RELM2Dom
 import GeoProofs.Lemmas.RELM2Disjoint
 import GeoProofs.Lemmas.RELM2Ring
+import GeoProofs.Lemmas.RELM3Areal
 import Mathlib.Tactic.NormNum
 
 namespace Geo.Proofs.C01
@@ -1572,5 +1573,147 @@ example : ∀ m, relateGraph Arith.exact (.point ⟨0, 0⟩) (.lineString [⟨0,
   fun m h => relateImpl_point_rows_eq_spec_closedLineString _ _ _ rfl (by decide) h _ _ (by decide)
 
 end Impl2
+
+/-! ## RELM3: LineString, MultiLineString (shared end points included) and collections of linear / point members -/
+
+section Impl3
+open Geo.RI Geo.GG Geo.Proofs.RELM Geo.Proofs.RELM2 Geo.Proofs.RELM3
+
+/-- [T] **self-noding of a simple open line string records nothing** (any arithmetic; `check_for_self_intersecting_edges`
+on or off): consecutive segments meet in one point, which `is_trivial_intersection` discards; every other pair of
+segments has `line_intersection = None` (`lineStringSimple`; `li_symm` for the pairs visited in the other order). -/
+theorem selfNoding_simple_lineString_records_nothing (ar : Arith) (idx : Nat) (cs : List Pt)
+    (hs : lineStringSimple cs = true) (hop : isClosedLS cs = false) :
+    ∀ e ∈ (freshGraph ar idx (.lineString cs)).edges, e.eis = [] :=
+  fresh_openLineString_no_eis ar idx cs hs hop
+
+/-- an open path with a right-angle turn -/
+example : ∀ e ∈ (freshGraph Arith.exact 1 (.lineString [⟨0, 0⟩, ⟨4, 0⟩, ⟨4, 3⟩, ⟨1, 3⟩])).edges, e.eis = [] :=
+  selfNoding_simple_lineString_records_nothing _ _ _ (by decide +kernel) (by decide +kernel)
+
+/-- [T] **the node map of one operand has pairwise distinct coordinates** for a MultiLineString (so C17's `mod2_rule`,
+stated for "the node at `p`", speaks about every node with that coordinate). -/
+theorem impl_mls_node_coordinates_distinct (idx : Nat) (ls : List (List Pt)) :
+    ((buildGraph idx (.multiLineString ls)).nodes.map (·.coord)).Nodup := by
+  rw [buildGraph_mls_nodes]
+  exact (ninv_addLineStrings ls (ninv_nil idx)).1
+
+/-- [T] **the nodes of the self-noded graph of a linear operand carry the specification's location** (exact arithmetic):
+LineString, MultiLineString, Line and collections of them, of the validity domain — for a MultiLineString whatever the
+way its members meet: at a common end point of several members the node has the mod-2 label (C17 `mod2_rule`), and the
+end-point count of the specification has the same parity (a closed member counts 0 there, 2 in the graph); the
+intersections self-noding records (valid records of their edges) are re-labelled / inserted `Inside` only where they
+are not boundary nodes, and every end point is a node already. -/
+theorem impl_nodes_carry_locate_linear (b : Geom) (hd : inDomain b = true) (hl : linOk b = true) :
+    NodesLocate Arith.exact b ∧ EisAreNodes Arith.exact b :=
+  ⟨nodesLocate_linear (linearAs_of_linOk b hd hl), eisAreNodes_linear _ (linearAs_of_linOk b hd hl)⟩
+
+/-- three line strings ending at (1, 0) (a K9 point: `coordinate_position` answers `Inside` there, the graph and the
+specification `OnBoundary`) and one crossing them -/
+example : NodesLocate Arith.exact (.multiLineString [[⟨0, 0⟩, ⟨1, 0⟩], [⟨1, 0⟩, ⟨1, 1⟩], [⟨1, 0⟩, ⟨2, 0⟩]]) :=
+  (impl_nodes_carry_locate_linear _ (by decide +kernel) rfl).1
+
+/-- [T] **Point × B on the validity domain, rows Interior and Boundary, at EVERY point, for every type of `B`** (exact
+arithmetic, graph path): Point, MultiPoint, Line, LineString (open or closed), MultiLineString, Polygon, MultiPolygon,
+Rect, Triangle, and the GeometryCollections all of whose members (recursively) are of one kind: point-like, linear,
+or areal (`pointRowsOk5`; areal members: the `OnBoundary`-nodes-on-rings invariant passes through `add_geometry`, and a
+ring point of one member is not strictly inside another — `collectionOk` makes the cells II, IB, BI, BB of every pair
+`F`, while C02X `cell_of_located` makes the cell of the two locations of a common arrangement point non-`F`).  No `nodeTypeOk`, no `noK9`: at a common end point of several members of a MultiLineString —
+where `coordinate_position` is not the specification's location (open finding K9) — `relate` does not ask
+`coordinate_position`, the point is a node of the graph and carries the mod-2 label.
+Full statement (every `B` of the domain): open only for collections mixing kinds — possible in the domain only with
+EMPTY members of another kind (an empty LineString inside a collection of polygons …), which add nothing to the graph
+but a degenerate entry to the specification's parts. -/
+theorem relateImpl_point_rows_eq_spec_allTypes_partial (p : Pt) (b : Geom) (hd : inDomain b = true)
+    (ht : pointRowsOk5 b = true) {m : IM} (h : relateGraph Arith.exact (.point p) b = some m)
+    (X Y : Pos) (hX : X ≠ .outside) : m.get X Y = (relateSpec (.point p) b).get X Y :=
+  point_rows_eq_spec_dom5 p b hd ht h X Y hX
+
+/-- the common end point of three members of a MultiLineString (K9 point), against it -/
+example : ∀ m, relateGraph Arith.exact (.point ⟨1, 0⟩)
+      (.multiLineString [[⟨0, 0⟩, ⟨1, 0⟩], [⟨1, 0⟩, ⟨1, 1⟩], [⟨1, 0⟩, ⟨2, 0⟩]]) = some m →
+    ∀ Y, m.get .inside Y = (relateSpec (.point ⟨1, 0⟩)
+      (.multiLineString [[⟨0, 0⟩, ⟨1, 0⟩], [⟨1, 0⟩, ⟨1, 1⟩], [⟨1, 0⟩, ⟨2, 0⟩]])).get .inside Y :=
+  fun m h Y => relateImpl_point_rows_eq_spec_allTypes_partial _ _ (by decide +kernel) rfl h _ Y (by decide)
+
+/-- the end point of an open line string; a collection of a segment and a line string -/
+example : ∀ m, relateGraph Arith.exact (.point ⟨1, 3⟩) (.lineString [⟨0, 0⟩, ⟨4, 0⟩, ⟨4, 3⟩, ⟨1, 3⟩]) = some m →
+    m.get .inside .onBoundary = (relateSpec (.point ⟨1, 3⟩) (.lineString [⟨0, 0⟩, ⟨4, 0⟩, ⟨4, 3⟩, ⟨1, 3⟩])).get .inside .onBoundary :=
+  fun m h => relateImpl_point_rows_eq_spec_allTypes_partial _ _ (by decide +kernel) rfl h _ _ (by decide)
+
+example : ∀ m, relateGraph Arith.exact (.point ⟨4, 0⟩)
+      (.collection [.line ⟨0, 0⟩ ⟨4, 0⟩, .lineString [⟨5, 0⟩, ⟨5, 3⟩, ⟨6, 3⟩]]) = some m →
+    m.get .inside .onBoundary = (relateSpec (.point ⟨4, 0⟩)
+      (.collection [.line ⟨0, 0⟩ ⟨4, 0⟩, .lineString [⟨5, 0⟩, ⟨5, 3⟩, ⟨6, 3⟩]])).get .inside .onBoundary :=
+  fun m h => relateImpl_point_rows_eq_spec_allTypes_partial _ _ (by decide +kernel) rfl h _ _ (by decide)
+
+/-- a collection of a triangle and a polygon with a hole, against the start vertex of the hole -/
+example : ∀ m, relateGraph Arith.exact (.point ⟨11, 1⟩)
+      (.collection [.triangle ⟨0, 0⟩ ⟨4, 0⟩ ⟨0, 4⟩,
+        .polygon ⟨[⟨10, 0⟩, ⟨14, 0⟩, ⟨14, 4⟩, ⟨10, 4⟩, ⟨10, 0⟩], [[⟨11, 1⟩, ⟨12, 1⟩, ⟨12, 2⟩, ⟨11, 1⟩]]⟩]) = some m →
+    m.get .inside .onBoundary = (relateSpec (.point ⟨11, 1⟩)
+      (.collection [.triangle ⟨0, 0⟩ ⟨4, 0⟩ ⟨0, 4⟩,
+        .polygon ⟨[⟨10, 0⟩, ⟨14, 0⟩, ⟨14, 4⟩, ⟨10, 4⟩, ⟨10, 0⟩], [[⟨11, 1⟩, ⟨12, 1⟩, ⟨12, 2⟩, ⟨11, 1⟩]]⟩])).get .inside .onBoundary :=
+  fun m h => relateImpl_point_rows_eq_spec_allTypes_partial _ _ (by decide +kernel) rfl h _ _ (by decide)
+
+/-- [T] **a ring point of an areal operand of the domain — a GeometryCollection of pairwise disjoint areal members
+included — is located `OnBoundary` by the specification**, and the nodes of its self-noded graph carry that location. -/
+theorem impl_nodes_carry_locate_arealCollection (b : Geom) (hd : inDomain b = true) (ha : arOk b = true) :
+    (∀ c, OnRings (ringsOf b) c → locate b c = .onBoundary) ∧ NodesLocate Arith.exact b ∧ EisAreNodes Arith.exact b :=
+  ⟨locate_onRings_coll b hd ha, nodesLocate_arealColl b hd ha⟩
+
+example : NodesLocate Arith.exact (.collection [.triangle ⟨0, 0⟩ ⟨4, 0⟩ ⟨0, 4⟩, .rect ⟨10, 0⟩ ⟨14, 4⟩]) :=
+  (impl_nodes_carry_locate_arealCollection _ (by decide +kernel) rfl).2.1
+
+/-- [T] … **and B × Point, columns Interior and Boundary**, through the two transpose laws. Same open cases. -/
+theorem relateImpl_point_cols_eq_spec_allTypes_partial (p : Pt) (b : Geom) (hd : inDomain b = true)
+    (ht : pointRowsOk5 b = true) (hz : noZeroLine b = true) (henv : envelopesMeet (.point p) b = true) {m : IM}
+    (h : relateImpl? b (.point p) = some m) (X Y : Pos) (hY : Y ≠ .outside) :
+    m.get X Y = (relateSpec b (.point p)).get X Y := by
+  rw [relateImpl_transpose (.point p) b rfl hz] at h
+  cases h' : relateImpl? (.point p) b with
+  | none => rw [h'] at h; cases h
+  | some m' =>
+    rw [h'] at h
+    simp only [Option.map_some, Option.some.injEq] at h
+    subst h
+    have hg : relateGraph Arith.exact (.point p) b = some m' := by
+      unfold relateImpl? relateImplWith at h'
+      rw [henv, if_pos rfl] at h'
+      exact h'
+    rw [transpose_get, relateImpl_point_rows_eq_spec_allTypes_partial p b hd ht hg Y X hY, relateSpec_transpose (.point p) b,
+      transpose_get]
+
+/-- a MultiLineString against the common end point of its members -/
+example : ∀ m, relateImpl? (.multiLineString [[⟨0, 0⟩, ⟨1, 0⟩], [⟨1, 0⟩, ⟨1, 1⟩], [⟨1, 0⟩, ⟨2, 0⟩]]) (.point ⟨1, 0⟩) = some m →
+    m.get .onBoundary .inside =
+      (relateSpec (.multiLineString [[⟨0, 0⟩, ⟨1, 0⟩], [⟨1, 0⟩, ⟨1, 1⟩], [⟨1, 0⟩, ⟨2, 0⟩]]) (.point ⟨1, 0⟩)).get .onBoundary .inside :=
+  fun m h => relateImpl_point_cols_eq_spec_allTypes_partial _ _ (by decide +kernel) rfl rfl (by decide +kernel) h _ _ (by decide)
+
+/-- [T] … **on both paths of `compute_intersection_matrix`** (`DimsSpec B` for the shortcut path, as in
+`relateImpl_point_rows_eq_spec_both_paths_partial`). -/
+theorem relateImpl_point_rows_eq_spec_allTypes_both_paths_partial (p : Pt) (b : Geom) (hd : inDomain b = true)
+    (ht : pointRowsOk5 b = true) (db : Spec.DimsSpec b) {m : IM} (h : relateImpl? (.point p) b = some m)
+    (X Y : Pos) (hX : X ≠ .outside) : m.get X Y = (relateSpec (.point p) b).get X Y := by
+  cases henv : envelopesMeet (.point p) b with
+  | true =>
+    have hg : relateGraph Arith.exact (.point p) b = some m := by
+      unfold relateImpl? relateImplWith at h
+      rw [henv, if_pos rfl] at h
+      exact h
+    exact relateImpl_point_rows_eq_spec_allTypes_partial p b hd ht hg X Y hX
+  | false =>
+    have := relateImpl_disjoint_eq_spec_dom_partial Arith.exact (a := .point p) (b := b) rfl hd henv (dimsSpec_point p) db
+    unfold relateImpl? at h
+    rw [this] at h
+    rw [← Option.some.inj h]
+
+/-- a point far from / at the end of an open line string -/
+example : ∀ m, relateImpl? (.point ⟨9, 9⟩) (.lineString [⟨0, 0⟩, ⟨4, 0⟩, ⟨4, 3⟩]) = some m →
+    m.get .inside .outside = (relateSpec (.point ⟨9, 9⟩) (.lineString [⟨0, 0⟩, ⟨4, 0⟩, ⟨4, 3⟩])).get .inside .outside :=
+  fun m h => relateImpl_point_rows_eq_spec_allTypes_both_paths_partial _ _ (by decide +kernel) rfl
+    (dimsSpec_lineString _ (by decide)) h _ _ (by decide)
+
+end Impl3
 
 end Geo.Proofs.C01
